@@ -84,7 +84,7 @@ func connOf(op string) string {
 	switch op {
 	case "fin1", "fin1x2", "req1", "req1d", "touch1", "cls1", "rdy1_2", "disc1":
 		return "c1"
-	case "fin2", "req2", "touch2", "rdy2", "disc2":
+	case "fin2", "req2", "touch2", "rdy2", "rdy2_2", "disc2":
 		return "c2"
 	}
 	return ""
@@ -126,7 +126,7 @@ func checkC02(tier string) int {
 	rep.Rule = "E1: every interleaving (sleep-set reduced) of 2-3 consumer answers / timeout scans / deliveries on one real channel, from each initial holder state; distinct = distinct (scenario, observable outcome) pairs"
 	rep.Assumptions = []string{"sequentially consistent memory; plain data races are looked for separately", "independence relation of rt/vx (one synchronisation object per transition)"}
 	var specs []nsqd.MicroSpec
-	ops := []string{"fin1", "fin1x2", "fin2", "req1", "req1d", "req2", "touch1", "touch2", "scan", "rdy2"}
+	ops := []string{"fin1", "fin1x2", "fin2", "req1", "req1d", "req2", "touch1", "touch2", "scan", "rdy2", "rdy2_2"}
 	secs := 20
 	if tier == "thorough" {
 		secs = 180
